@@ -423,6 +423,24 @@ func genC12(g *Gen) {
 		}
 		g.Emit("c12", nil, ops)
 	}
+	// sizes and counts at the ends of the int range (sums and negations of them overflow)
+	if g.Mine() {
+		g.Emit("c12", nil, []string{"drop [1,2,3] 9223372036854775807", "chunk [1,2,3] 9223372036854775807", "drop [1,2,3] 9223372036854775806", "chunk [1,2,3] 9223372036854775806", "drop [1,2,3] 9223372036854775805", "chunk [1,2,3] 9223372036854775805", "drop [1,2,3] 4611686018427387904", "chunk [1,2,3] 4611686018427387904", "drop [1,2,3] 4611686018427387903", "chunk [1,2,3] 4611686018427387903", "drop [1,2,3] -9223372036854775807", "drop [1,2,3] -9223372036854775808", "drop [1,2,3] -4611686018427387904", "drop [] 9223372036854775807", "chunk [] 9223372036854775807", "drop [] 9223372036854775806", "chunk [] 9223372036854775806", "drop [] 9223372036854775805", "chunk [] 9223372036854775805", "drop [] 4611686018427387904", "chunk [] 4611686018427387904", "drop [] 4611686018427387903", "chunk [] 4611686018427387903", "drop [] -9223372036854775807", "drop [] -9223372036854775808", "drop [] -4611686018427387904", "drop [7] 9223372036854775807", "chunk [7] 9223372036854775807", "drop [7] 9223372036854775806", "chunk [7] 9223372036854775806", "drop [7] 9223372036854775805", "chunk [7] 9223372036854775805", "drop [7] 4611686018427387904", "chunk [7] 4611686018427387904", "drop [7] 4611686018427387903", "chunk [7] 4611686018427387903", "drop [7] -9223372036854775807", "drop [7] -9223372036854775808", "drop [7] -4611686018427387904", "drop [1,2,3,4,5,6,7,8] 9223372036854775807", "chunk [1,2,3,4,5,6,7,8] 9223372036854775807", "drop [1,2,3,4,5,6,7,8] 9223372036854775806", "chunk [1,2,3,4,5,6,7,8] 9223372036854775806", "drop [1,2,3,4,5,6,7,8] 9223372036854775805", "chunk [1,2,3,4,5,6,7,8] 9223372036854775805", "drop [1,2,3,4,5,6,7,8] 4611686018427387904", "chunk [1,2,3,4,5,6,7,8] 4611686018427387904", "drop [1,2,3,4,5,6,7,8] 4611686018427387903", "chunk [1,2,3,4,5,6,7,8] 4611686018427387903", "drop [1,2,3,4,5,6,7,8] -9223372036854775807", "drop [1,2,3,4,5,6,7,8] -9223372036854775808", "drop [1,2,3,4,5,6,7,8] -4611686018427387904"})
+	}
+	// skewed long inputs: one value occurs 255 .. 2s+1 times (narrow counters, group sizes)
+	for li, c := range skewLens(g.Thorough()) {
+		if !g.Mine() {
+			continue
+		}
+		s := skewSlice(c, li)
+		var ops []string
+		for _, o := range c12SliceOps(s, 3, 2, []int{5}) {
+			if !strings.HasPrefix(o, "reduce r1 ") {
+				ops = append(ops, o)
+			}
+		}
+		g.Emit("c12", nil, ops)
+	}
 	// long inputs (lengths incl. thresholds a change introduced into the source)
 	for li, n := range longLens(g.Thorough()) {
 		if !g.Mine() {
